@@ -72,7 +72,7 @@ func H_C15_relpath() {
 }
 
 func H_C15_recvmanifest() {
-	n := vC15Lens(28)
+	n := vC15Lens(16)
 	in := vBytes("in", n)
 	s := &vMemStream{buf: in}
 	mark := vAllocMark()
@@ -93,7 +93,7 @@ func H_C15_recvmanifest_body() {
 	}
 	jb, err := json.Marshal(m)
 	vAssume(err == nil)
-	n := vC15Lens(20)
+	n := vC15Lens(16)
 	rest := vBytes("rest", n)
 	var in []byte
 	in = append(in, manifestMagicBytes...)
